@@ -165,16 +165,18 @@ def random_history(rng, hid, steps, n_aircraft, with_time=True, with_serde=True)
     return {"id": hid, "rx": [round(rx[0] * 1e6), round(rx[1] * 1e6)], "range_m": rng_m, "steps": out}
 
 
-def neighbour_history(rng, hid):
+def neighbour_history(rng, hid, with_serde=False, base=None):
     """addresses that differ in one bit from a common base (all ones, all zeros, a random one), each heard a few times,
     interleaved: any key derived from the address that is not injective merges two of them into one record"""
-    base = rng.choice((0xFFFFFF, 0x000000, rng.randrange(1 << 24)))
-    addrs = [a for a in [base] + [base ^ (1 << k) for k in range(24)] if a != 0]
+    base = base if base is not None else rng.choice((0xFFFFFF, 0x000000, rng.randrange(1 << 24)))
+    addrs = [base] + [base ^ (1 << k) for k in range(24)]          # (the all-zero address included: unusual, legal)
     rx = RECEIVERS[0]
     order = [a for a in addrs for _ in range(2)]
     rng.shuffle(order)
     out = []
     for a in order:
+        if with_serde and rng.random() < 0.08:
+            out.append({"op": "serde"})
         if rng.random() < 0.6:
             out.append(frame_step(f_ident(rng, a, "N%05X" % (a & 0xFFFFF), df=rng.choice((17, 18)))))
         else:
